@@ -350,7 +350,7 @@ def flagged_fields(schema):
 
 EXT_KINDS = ("object-field", "enum-value", "input-field", "union-member",
              "new-type", "interface-field-all", "documented-field",
-             "new-implementation", "directive-definition")
+             "new-implementation", "directive-definition", "nothing-new")
 
 
 def gen_extension(st, schema, counter):
@@ -389,6 +389,20 @@ def gen_extension(st, schema, counter):
     if kind == "directive-definition":
         return kind, "directive @ext_%d(n: Int = %d) on FIELD_DEFINITION" % (
             k, k)
+    if kind == "nothing-new":
+        # documents that end up adding nothing in non-strict mode: a
+        # definition the schema already has, an extension of an unknown type
+        customs = sorted(n for n in schema.directives
+                         if n not in _struct.SPECIFIED_DIRECTIVES)
+        docs = ["extend type NoSuchType%d {\n  a: Int\n}" % k]
+        if customs:
+            d = customs[st.below(len(customs), "ext_dir")]
+            docs.append("directive @%s on FIELD_DEFINITION" % d)
+            docs.append(docs[1] + "\n\n" + docs[0])
+        if objs:
+            t = objs[st.below(len(objs), "ext_t")]
+            docs.append("type %s {\n  a: Int\n}" % t)
+        return kind, docs[st.below(len(docs), "ext_nothing")]
     if kind == "enum-value":
         enums = sorted(n for n, t in schema.types.items()
                        if hasattr(t, "values") and not n.startswith("__")
@@ -632,6 +646,8 @@ def run_machine(draws, state, tier):
         new = None
         hidden = None
         raised = None
+        ext_directives = False
+        flagged = set()
         if op == 8:
             # a transform applied IN PLACE to a derived schema (documented
             # for schema directives; visitors work the same way): the schema
@@ -847,10 +863,21 @@ def run_machine(draws, state, tier):
                 new = apply_schema_directives(
                     src.schema.clone(), [TagDirective, FlagDirective])
             else:
-                kind, doc = gen_extension(draws.stream("ext%d" % step),
-                                          src.schema, counter)
+                est = draws.stream("ext%d" % step)
+                kind, doc = gen_extension(est, src.schema, counter)
+                ext_kw = {}
+                if kind == "nothing-new":
+                    ext_kw["strict"] = False
+                if entry.kind == "sdl" and est.chance(1, 3, "ext_directives"):
+                    # schema directives handed to the extension: they are for
+                    # the RESULT
+                    ext_kw["schema_directives"] = [TagDirective,
+                                                   FlagDirective]
+                    flagged = flagged_fields(src.schema)
+                    ext_directives = True
+                    kind += "+directives"
                 seq[-1] = (opname, li, kind)
-                new = extend_schema(src.schema, doc)
+                new = extend_schema(src.schema, doc, **ext_kw)
         except GraphQLError as err:
             # A refused operation.  The documented refusals are "the result
             # would not be a valid schema" (transforms and extensions validate
@@ -888,7 +915,7 @@ def run_machine(draws, state, tier):
             hidden = None
 
         # ---- source untouched (clone-based operations) -------------------
-        if op in (0, 1, 2, 3, 6):
+        if op in (0, 1, 2, 3, 4, 6):
             fp = _struct.describe(src.schema, identity=True)
             d = _struct.diff(src.fp, fp)
             if d:
@@ -916,7 +943,7 @@ def run_machine(draws, state, tier):
 
         # ---- removal -------------------------------------------------------
         all_hidden = set(src.hidden)
-        if op == 6:
+        if op == 6 or ext_directives:
             all_hidden |= flagged
         if hidden is not None:
             h = hidden
@@ -936,7 +963,7 @@ def run_machine(draws, state, tier):
             try:
                 intro = introspected_names(new)
             except SchemaValidationError:
-                if op != 6 and not src.maybe_invalid:
+                if op != 6 and not ext_directives and not src.maybe_invalid:
                     raise
                 intro = set()
             except Exception as err:  # noqa: B902
@@ -1001,7 +1028,7 @@ def run_machine(draws, state, tier):
             targets = []
             if hidden is not None:
                 targets.append(hidden)
-            if op == 6:
+            if op == 6 or ext_directives:
                 targets.extend(flagged)
             for h in targets:
                 gone.add(h)
